@@ -745,6 +745,17 @@ func (m *connectStreamingMarshaler) MarshalEndStream(err error, trailer http.Hea
 			end.Error = (*connectWireError)(NewError(CodeUnknown, err))
 		}
 	}
+	for key, values := range end.Trailer {
+		if len(values) == 0 {
+			// A key without values - the values of a header that wasn't there,
+			// stored under it; a trailer that a forwarded response announced and
+			// never got - is no trailer: the HTTP encodings of the other protocols
+			// send nothing for it. Here it would come out as JSON null, where the
+			// protocol has an array of strings, and strict peers refuse the whole
+			// end-of-stream message.
+			delete(end.Trailer, key)
+		}
+	}
 	data, marshalErr := json.Marshal(end)
 	if marshalErr != nil {
 		return errorf(CodeInternal, "marshal end stream: %w", marshalErr)
